@@ -1,19 +1,71 @@
 //! OS thread migration as a fault: the top-level future of a run is polled in phases that
-//! alternate between two helper OS threads (both fresh for the run, alive until it ends), one
-//! thread at a time. A task of the run ends the current phase by setting `request` and waking the
-//! waker in `waker_slot`. Execution stays strictly sequential, so the run is as deterministic as
-//! it was on one thread - but anything that is tied to the calling thread (`thread_local!` state)
-//! now sees what a work-stealing runtime does to tasks all the time.
+//! alternate between two helper OS threads, one thread at a time. A task of the run ends the
+//! current phase by setting `request` and waking the waker in `waker_slot`. Execution stays
+//! strictly sequential, so the run is as deterministic as it was on one thread - but anything that
+//! is tied to the calling thread (`thread_local!` state) now sees what a work-stealing runtime
+//! does to tasks all the time.
+//!
+//! Creating and destroying threads is expensive in a process whose other threads fault pages all
+//! the time, so every batch worker keeps its pair of helpers for a number of runs before it
+//! replaces them with fresh ones (a replay in a fresh process always starts with fresh helpers).
 
 use std::{
+    cell::RefCell,
     future::Future,
+    panic::{catch_unwind, resume_unwind, AssertUnwindSafe},
     pin::Pin,
     sync::{
         atomic::{AtomicBool, Ordering},
-        Condvar, Mutex,
+        mpsc::{channel, Receiver, Sender},
+        Mutex,
     },
     task::{Poll, Waker},
 };
+
+type Job = Box<dyn FnOnce() + Send + 'static>;
+
+struct Helper {
+    tx: Sender<Job>,
+    done: Receiver<Result<(), Box<dyn std::any::Any + Send>>>,
+}
+
+impl Helper {
+    fn new() -> Helper {
+        let (tx, rx) = channel::<Job>();
+        let (dtx, done) = channel();
+        let _ = std::thread::Builder::new().name("verif-helper".into()).spawn(move || {
+            while let Ok(job) = rx.recv() {
+                let r = catch_unwind(AssertUnwindSafe(job));
+                if dtx.send(r).is_err() {
+                    break;
+                }
+            }
+        });
+        Helper { tx, done }
+    }
+
+    /// Runs `f` on the helper thread and waits for it.
+    fn run<'a>(&self, f: impl FnOnce() + Send + 'a) {
+        let job: Box<dyn FnOnce() + Send + 'a> = Box::new(f);
+        // SAFETY: this function does not return before the helper has finished (or dropped) the
+        // job, so everything the closure borrows outlives its use on the other thread.
+        let job: Job = unsafe { std::mem::transmute(job) };
+        self.tx.send(job).expect("helper thread is gone");
+        match self.done.recv().expect("helper thread is gone") {
+            Ok(()) => {}
+            Err(p) => resume_unwind(p),
+        }
+    }
+}
+
+struct Pair {
+    h: [Helper; 2],
+    uses: u32,
+}
+
+thread_local! {
+    static PAIR: RefCell<Option<Pair>> = const { RefCell::new(None) };
+}
 
 /// `block_on(f)` must drive `f` on the run's (single-threaded) executor from the calling thread.
 /// `enter` / `leave` run on the helper thread around every phase (e.g. to hand thread-local harness
@@ -26,59 +78,45 @@ pub fn run_alternating<T: Send>(
     enter: &(dyn Fn() + Sync),
     leave: &(dyn Fn() + Sync),
 ) -> (T, u64) {
-    struct Turn<T> {
-        who: usize,
-        result: Option<T>,
-        phases: u64,
+    let mut pair = PAIR.with(|p| p.borrow_mut().take());
+    if pair.as_ref().map(|p| p.uses >= 64).unwrap_or(true) {
+        pair = Some(Pair { h: [Helper::new(), Helper::new()], uses: 0 });
     }
+    let mut pair = pair.unwrap();
+    pair.uses += 1;
     let fut = Mutex::new(fut);
-    let turn = Mutex::new(Turn { who: 0, result: None, phases: 0 });
-    let cv = Condvar::new();
-    std::thread::scope(|s| {
-        for me in 0..2usize {
-            let (fut, turn, cv) = (&fut, &turn, &cv);
-            let _ = s.spawn(move || loop {
-                {
-                    let mut g = turn.lock().unwrap();
-                    while g.who != me && g.result.is_none() {
-                        g = cv.wait(g).unwrap();
-                    }
-                    if g.result.is_some() {
-                        return;
-                    }
-                }
-                enter();
-                let r = {
-                    let mut f = fut.lock().unwrap();
-                    let phase = std::pin::pin!(std::future::poll_fn(|cx| {
-                        *waker_slot.lock().unwrap() = Some(cx.waker().clone());
-                        match f.as_mut().poll(cx) {
-                            Poll::Ready(v) => Poll::Ready(Some(v)),
-                            Poll::Pending => {
-                                if request.swap(false, Ordering::SeqCst) {
-                                    Poll::Ready(None)
-                                } else {
-                                    Poll::Pending
-                                }
+    let mut phases = 0u64;
+    let result = loop {
+        let who = (phases % 2) as usize;
+        phases += 1;
+        let slot: Mutex<Option<T>> = Mutex::new(None);
+        pair.h[who].run(|| {
+            enter();
+            let r = {
+                let mut f = fut.lock().unwrap();
+                let phase = std::pin::pin!(std::future::poll_fn(|cx| {
+                    *waker_slot.lock().unwrap() = Some(cx.waker().clone());
+                    match f.as_mut().poll(cx) {
+                        Poll::Ready(v) => Poll::Ready(Some(v)),
+                        Poll::Pending => {
+                            if request.swap(false, Ordering::SeqCst) {
+                                Poll::Ready(None)
+                            } else {
+                                Poll::Pending
                             }
                         }
-                    }));
-                    block_on(phase)
-                };
-                leave();
-                let mut g = turn.lock().unwrap();
-                g.phases += 1;
-                match r {
-                    Some(v) => g.result = Some(v),
-                    None => g.who = 1 - me,
-                }
-                cv.notify_all();
-                if g.result.is_some() {
-                    return;
-                }
-            });
+                    }
+                }));
+                block_on(phase)
+            };
+            leave();
+            *slot.lock().unwrap() = r;
+        });
+        if let Some(v) = slot.into_inner().unwrap() {
+            break v;
         }
-    });
-    let g = turn.into_inner().unwrap();
-    (g.result.expect("run finished"), g.phases)
+    };
+    *waker_slot.lock().unwrap() = None;
+    PAIR.with(|p| *p.borrow_mut() = Some(pair));
+    (result, phases)
 }
